@@ -196,6 +196,8 @@ pub enum Op {
 
 #[derive(Clone, Debug, Default)]
 pub struct EnvS {
+  /// the modulator link is lost while this operation is handled: every call fails, `operations()` and `protocol_name()` too
+  pub down: bool,
   pub ev_ok: bool,
   pub verdict: Option<VerdictS>,
   pub auth: Option<AuthS>,
@@ -203,8 +205,15 @@ pub struct EnvS {
 }
 
 impl EnvS {
+  /// membership events may be missing although memberships changed (the modulator refused them or could not be reached)
+  pub fn quiet(&self) -> bool {
+    !self.ev_ok || self.down
+  }
   fn line(&self, owners: &[(String, String)]) -> String {
     let mut s = format!("env evok={}", self.ev_ok as u8);
+    if self.down {
+      s.push_str(" down=1");
+    }
     if !owners.is_empty() {
       let _ = write!(s, " owners={}", owners.iter().map(|(c, u)| format!("{c}:{u}")).collect::<Vec<_>>().join(","));
     }
@@ -592,6 +601,10 @@ impl Gen {
     if self.cfg.has_op(Operation::ForwardEvent) && self.rng.chance(1, 12) {
       env.ev_ok = false;
     }
+    // the modulator link is lost while this operation (whatever it is: handshake, request, close) is handled
+    if self.cfg.modulator.is_some() && self.rng.chance(1, 24) {
+      env.down = true;
+    }
     let open: Vec<usize> = self.conns.iter().filter(|(_, c)| c.open).map(|(k, _)| *k).collect();
     if open.is_empty() || (open.len() < 3 && self.rng.chance(1, 2)) || (open.len() < 7 && self.rng.chance(1, 25)) {
       let k = self.next_conn;
@@ -624,7 +637,11 @@ impl Gen {
       },
       1 => {
         if self.cfg.has_op(Operation::Auth) {
-          if self.rng.chance(9, 10) {
+          if env.down && self.rng.chance(1, 2) {
+            // IDENTIFY while the modulator cannot be asked anything: still refused in modulator-auth mode
+            self.bump("identify");
+            Req::Identify { username: (*self.rng.pick(USERS)).into() }
+          } else if self.rng.chance(9, 10) {
             let r = self.rng.below(10);
             env.auth = Some(match r {
               0 => AuthS::Failure,
@@ -775,10 +792,6 @@ impl Gen {
           1 => VerdictS::Failed,
           // unreachable: only with an event-forwarding modulator, where the model knows that the notifications of a
           // clean-up fail as well (`evok=0`)
-          8 if self.cfg.has_op(Operation::ForwardEvent) => {
-            env.ev_ok = false;
-            VerdictS::Down
-          },
           8 => VerdictS::Failed,
           2 | 3 => {
             let mut p = self.payload();
@@ -906,7 +919,7 @@ pub async fn run_op(
     s.ev_ok = env.ev_ok;
     s.verdict = env.verdict.clone().unwrap_or(VerdictS::Valid);
     // the whole request (its clean-up included, if it ends the connection) finds the modulator unreachable
-    s.down = matches!(env.verdict, Some(VerdictS::Down));
+    s.down = env.down || matches!(env.verdict, Some(VerdictS::Down));
     s.auth = env.auth.clone().unwrap_or(AuthS::Failure);
     s.direct = env.direct.unwrap_or(Some(true));
   }
@@ -1019,7 +1032,7 @@ pub async fn run_case(cfg: SrvCfg, rng: Rng, max_steps: usize, mode: &str) -> (C
     }
     // a scenario whose scripted connections died has nothing left to say
     if g.mode == "acl" && closed_any {
-      if env.ev_ok {
+      if !env.quiet() {
         g.plan_acl_aftermath();
       } else {
         break;
@@ -1029,7 +1042,7 @@ pub async fn run_case(cfg: SrvCfg, rng: Rng, max_steps: usize, mode: &str) -> (C
     }
     // without visible hand-over events the owner oracle is blind: end the history here
     // (a scripted prologue goes on: it is written so that the successor is the only remaining member)
-    if !env.ev_ok && g.plan.is_empty() && !g.mode.starts_with("kf_") && (closed_any || matches!(op, Op::Close(_) | Op::Recv(_, Req::Leave { .. }))) {
+    if env.quiet() && g.plan.is_empty() && !g.mode.starts_with("kf_") && (closed_any || matches!(op, Op::Close(_) | Op::Recv(_, Req::Leave { .. }))) {
       break;
     }
   }
